@@ -2172,6 +2172,10 @@ class Interp:
         kind, sortname = decl
         if kind == 'contract':
             return BoundMeth(o, attr, self.w.registry.contracts[sortname])
+        if kind == 'ufmethod':
+            # a method known only as an uninterpreted function of the object:  name:sort
+            fname, rs = sortname.split(':')
+            return BoundMeth(o, attr, PyConst('ufmethod', f'{fname}:{rs}'))
         if kind == 'method':
             return BoundMeth(o, attr, PyConst('opaquemethod', sortname))
         return self.opaque_value(sortname, f'{o.kind}.{attr}', o.ident)
@@ -2373,7 +2377,18 @@ class Interp:
         self.oos(f'spec function statement {type(s).__name__}', s)
 
     def call_contract(self, c, recv, args, kwargs, n):
-        from .contracts import apply_contract
+        from .contracts import apply_contract, bind_params
+        if self.spec:
+            # inside a contract/spec expression (e.g. under all()/any()): a pure function under contract
+            # stands for its defining postcondition `result == <expr>` (the induction hypothesis on sub-terms)
+            first = c.clauses()[0][1] if c.clauses() else ''
+            node = ast.parse(first.strip(), mode='eval').body if first else None
+            if (c.modifies or c.raises or node is None or not isinstance(node, ast.Compare) or len(node.ops) != 1
+                    or not isinstance(node.ops[0], ast.Eq) or ast.unparse(node.left) != 'result'):
+                self.oos(f'call of {c.key} inside a specification expression', n)
+            env = bind_params(self, c, recv, args, kwargs, n)
+            sub = Interp(self.p, None, env, spec=True, fname=f'<{c.key}>')
+            return sub.ev(node.comparators[0])
         return apply_contract(self, c, recv, args, kwargs, n)
 
     def ex_Lambda(self, n):
